@@ -24,7 +24,9 @@ EXPLANATION = (
 RULE_TEXT = (
     "C15.a no shared container; C15.b regex AST of the pattern: `\\$`+name followed by a negative word look-ahead or "
     "\\b, IGNORECASE flag; C15.c replacement argument is a callable; C15.d=C07.e; C15.e substitution is token-aware; "
-    "C15.f SET/UNSET descriptors update the connection's own mapping and become the success no-op."
+    "C15.f SET/UNSET descriptors update the connection's own mapping and become the success no-op; C15.g stored value "
+    "rendered in the Snowflake dialect; C15.h SET/UNSET stage after the folding stage; C15.i every state the "
+    "substitution reads is updated by both SET and UNSET."
 )
 TRUSTED = ["CPython ast and re._parser", "re.sub interprets backslash escapes in a string replacement"]
 
